@@ -1,0 +1,20 @@
+//go:build verif
+
+package utreexo
+
+// VerifPoint, when set, is called at named points inside the critical
+// sections of the MapPollard methods that change it.  It only exists in
+// builds with the "verif" tag and is used by external verification harnesses
+// to suspend a writer in the middle of a block.
+var VerifPoint func(site string)
+
+func verifPoint(site string) {
+	if f := VerifPoint; f != nil {
+		f(site)
+	}
+}
+
+// VerifTranslatePos exposes translatePos to verification harnesses.
+func VerifTranslatePos(pos uint64, fromTotalRow, toTotalRow uint8) uint64 {
+	return translatePos(pos, fromTotalRow, toTotalRow)
+}
